@@ -546,6 +546,46 @@ theorem prefetch_admission_respects_ecs_cd (entryScoped requestCD requestHadECS 
   unfold prefetchAdmitsDenial
   rcases h with h | h | h | h <;> simp [h]
 
+/-! ## through the iterative resolver -/
+
+/-- **The scope the cache keys on is the scope the authority declared.** The
+request the resolver works on carries exactly the forwarded option (`SetEdns0`);
+if the authority's response has a subnet option, the cache reads the SCOPE of
+THAT option from what the resolver hands up; if it has none, the cache sees the
+forwarded option's SCOPE 0 and files the answer as global. -/
+theorem resolver_hands_up_authority_scope (f : Fwd) (resp : List Opt) :
+    (∀ d, firstEcs resp = some d →
+      readResponseScope (resolverHandUp (some [Opt.ecs f.toSubnet]) (some resp)) = readResponseScope (some [Opt.ecs d])) ∧
+    (firstEcs resp = none →
+      readResponseScope (resolverHandUp (some [Opt.ecs f.toSubnet]) (some resp)) = none) := by
+  constructor
+  · intro d hd
+    simp [resolverHandUp, firstEcs, hd, Opt.isEcs]
+  · intro hn
+    simp [resolverHandUp, firstEcs, hn, readResponseScope, Fwd.toSubnet]
+
+/-- a query that carried no subnet option never gets a scoped answer filed, whatever the authority volunteers. -/
+theorem resolver_no_subnet_no_scope (ro resp : List Opt) (h : ∀ o ∈ ro, o.isEcs = false) :
+    resolverHandUp (some ro) (some resp) = some ro ∧ readResponseScope (some ro) = none := by
+  have hf : firstEcs ro = none := by
+    induction ro with
+    | nil => rfl
+    | cons o t ih =>
+      cases o with
+      | ecs s => have := h (Opt.ecs s) List.mem_cons_self; simp [Opt.isEcs] at this
+      | other c d => simp only [firstEcs]; exact ih (fun o ho => h o (List.mem_cons_of_mem _ ho))
+  exact ⟨by simp [resolverHandUp, hf], by simp [readResponseScope, hf]⟩
+
+/-- **Upstream lookups for different subnets are never collapsed**: two requests
+share a singleflight key only if they forward the same family, source netmask
+and address (and ask the same question with the same CD). -/
+theorem lookup_key_separates_subnets (qid : Nat) (cd : Bool) (a b : Fwd)
+    (h : lookupKey qid cd [Opt.ecs a.toSubnet] = lookupKey qid cd [Opt.ecs b.toSubnet]) :
+    a.fam.code = b.fam.code ∧ a.mask = b.mask ∧
+    natBytes (a.fam.width / 8) a.val = natBytes (b.fam.width / 8) b.val := by
+  simp only [lookupKey, firstEcs, Option.map_some, Prod.mk.injEq, Option.some.injEq, true_and, Fwd.toSubnet] at h
+  exact ⟨h.1, h.2.1, h.2.2⟩
+
 /-! ## every reachable cache state -/
 
 /-- what must hold of an entry that sits in the cache under policy `pol` and cap `cap`. -/
@@ -766,6 +806,11 @@ example : setEdns0 (some demoPol) (some ⟨.v4, 0x0b010203⟩)
 example : clamp (some demoPol) ⟨1, 27, 0, some [10, 1, 0xff, 0xff]⟩ = some ⟨.v4, 19, 0x0a01e000⟩ := by decide
 example : requestScope (some demoPol) (some ⟨.v4, 0x0a010203⟩) (some [.ecs (Fwd.mk .v4 19 0x0a01e000).toSubnet]) =
     some ⟨.v4, 0x0a01e000, 19⟩ := by decide
+-- resolver mode: forwarded /19, authority echoes it with SCOPE 24 → the cache reads 10.1.224.0/24; no option → global
+example : readResponseScope (resolverHandUp (some [.ecs (Fwd.mk .v4 19 0x0a01e000).toSubnet])
+    (some [.ecs ⟨1, 19, 24, some [10, 1, 0xe0, 0]⟩])) = some ⟨.v4, 0x0a01e000, 24⟩ := by decide
+example : readResponseScope (resolverHandUp (some [.ecs (Fwd.mk .v4 19 0x0a01e000).toSubnet]) (some [])) = none := by decide
+example : lookupKey 7 false [.ecs (Fwd.mk .v4 24 0x0a010200).toSubnet] ≠ lookupKey 7 false [.ecs (Fwd.mk .v4 24 0xc6336400).toSubnet] := by decide
 -- a client reply never keeps the forwarded copy nor the upstream's own
 example : replyOptions false (some [.ecs ⟨1, 19, 19, some [10, 1, 0xe0, 0]⟩, .other 11 "up"])
     [.ecs ⟨1, 19, 0, some [10, 1, 0xe0, 0]⟩] [.other 10 "srv"] true = some [.other 10 "srv", .other 11 "srv"] := by decide
